@@ -20,6 +20,7 @@ import (
 	"github.com/tikv/client-go/v2/tikvrpc"
 	"github.com/tikv/client-go/v2/util/async"
 	"github.com/tikv/client-go/v2/util/codec"
+	"github.com/tikv/client-go/v2/verifh/vrep"
 
 	"verif/e2e/uni"
 )
@@ -31,6 +32,12 @@ func es(err error) string {
 		return ""
 	}
 	return fmt.Sprintf("%T: %v", err, err)
+}
+
+// viol reports a violation; every signature ends in the back-end it was observed on, so that a known finding
+// of one back-end can never cover the same symptom on the other.
+func viol(r *vrep.Report, backend, sig, msg string, detail any) {
+	r.Violate(sig+":"+backend, msg, detail)
 }
 
 func bkeys(ss []string) [][]byte {
